@@ -271,9 +271,18 @@ function runEval(c) {
   try {
     // both modes must parse; the sloppy one is executed
     // eslint-disable-next-line no-new
-    new vm.Script("'use strict';" + c.runtime + ';var $gen=' + c.code)
-    // eslint-disable-next-line no-new-func
-    gen = new Function(c.runtime + ';return ' + c.code)()
+    new vm.Script("'use strict';" + (c.group ? '' : c.runtime) + ';var $gen=' + c.code)
+    if (c.group) {
+      // the all-templates bundle: evaluates to G (path -> generator object); cross-file links (import, include, external
+      // scripts) are live inside it
+      // eslint-disable-next-line no-new-func
+      const G = new Function('return ' + c.code)()
+      gen = G[c.gpath]
+      if (typeof gen !== 'function') { res.parseError = 'the bundle has no entry ' + JSON.stringify(c.gpath); return res }
+    } else {
+      // eslint-disable-next-line no-new-func
+      gen = new Function(c.runtime + ';return ' + c.code)()
+    }
     res.parsed = true
   } catch (e) {
     res.parseError = String(e)
